@@ -68,6 +68,30 @@ pub struct Exec {
     pub in_variant: bool,
     pub variant_key: String,
     pub variant_prop: String,
+    /// counters just before the last reboot (C07)
+    pub pre_reboot: Option<String>,
+    /// a session was successfully started and neither completed (marked) nor cancelled
+    pub started_ok: bool,
+    /// lifecycle oracle (C12): per slot
+    pub life: Vec<Life>,
+    pub confirm_clock: u32,
+    /// firmware slot of the last session (C04 image comparison)
+    pub last_fw: Option<usize>,
+    /// flash contents were written directly by the scenario (arbitrary-flash scenarios)
+    pub crafted: bool,
+    /// the interrupted final mark had already completed the firmware slot (C06: nothing left to resume)
+    pub completed_by_mark: bool,
+}
+
+#[derive(Clone, Copy, Debug, PartialEq)]
+pub enum Life {
+    None,
+    InProgress,
+    Aborted,
+    CopyPending,
+    AckPending,
+    Confirmed(u32),
+    Rejected,
 }
 
 pub fn ops_str(f: &Nor, slot: usize) -> String {
@@ -115,7 +139,53 @@ impl Exec {
             in_variant: false,
             variant_key: String::new(),
             variant_prop: String::new(),
+            pre_reboot: None,
+            started_ok: false,
+            life: vec![Life::None; 4],
+            confirm_clock: 0,
+            last_fw: None,
+            crafted: false,
+            completed_by_mark: false,
         }
+    }
+
+    /// lifecycle oracle: slots erased by the logged operations lose their image
+    fn life_apply_erases(&mut self) {
+        for op in &self.f.log {
+            if let Op::Erase(a) = op {
+                let sl = a / self.slot;
+                if sl < self.nslots && a % self.slot == 0 {
+                    self.life[sl] = Life::None;
+                }
+            }
+        }
+    }
+    fn life_expect_bl(&self) -> String {
+        for (i, l) in self.life.iter().enumerate() {
+            match l {
+                Life::CopyPending => return format!("Copy({})", i),
+                Life::AckPending => return format!("Unack({})", i),
+                _ => {}
+            }
+        }
+        "Idle".into()
+    }
+    fn life_expect_fb(&self) -> String {
+        let mut best: Option<(u32, usize)> = None;
+        for (i, l) in self.life.iter().enumerate() {
+            if let Life::Confirmed(c) = l {
+                if best.map(|b| b.0 < *c).unwrap_or(true) {
+                    best = Some((*c, i));
+                }
+            }
+        }
+        match best {
+            Some((_, i)) => format!("Some({})", i),
+            None => "None".into(),
+        }
+    }
+    fn pending_count(&self) -> usize {
+        self.life.iter().filter(|l| matches!(l, Life::CopyPending | Life::AckPending)).count()
     }
 
     fn hdr_words(&self, slot: usize) -> [u32; 7] {
@@ -182,7 +252,7 @@ impl Exec {
     fn twin(&mut self, tag: &str, outcome: &str, o: &mut Out) {
         if self.recording_base {
             self.base.push(format!("{} {}", tag, outcome));
-        } else if self.in_variant {
+        } else if self.in_variant && self.variant_prop == "C07" {
             let want = self.base.get(self.variant_pos).cloned();
             let got = format!("{} {}", tag, outcome);
             if want.as_deref() != Some(&got) {
@@ -219,6 +289,13 @@ impl Exec {
                 self.attempt = 0;
                 self.in_variant = false;
                 self.recording_base = false;
+                self.pre_reboot = None;
+                self.started_ok = false;
+                self.life = vec![Life::None; self.nslots];
+                self.confirm_clock = 0;
+                self.last_fw = None;
+                self.crafted = false;
+                self.completed_by_mark = false;
                 o.stat("scenarios");
                 "ok".into()
             }
@@ -254,6 +331,7 @@ impl Exec {
                 let a: usize = t[1].parse().unwrap();
                 let d = unhex(t[2]);
                 self.f.mem[a..a + d.len()].copy_from_slice(&d);
+                self.crafted = true;
                 "ok".into()
             }
             "fill" => {
@@ -264,6 +342,7 @@ impl Exec {
                 for b in &mut self.f.mem[a..a + len] {
                     *b = r.next() as u8;
                 }
+                self.crafted = true;
                 "ok".into()
             }
             "crash" => {
@@ -287,6 +366,7 @@ impl Exec {
                 "-".into()
             }
             "reboot" => {
+                self.pre_reboot = if self.u.is_some() && !self.crashed && !self.faulted { Some(self.counters()) } else { None };
                 self.u = None;
                 self.f.reboot();
                 self.last_recv = None;
@@ -300,10 +380,21 @@ impl Exec {
                 if !armed {
                     self.f.arm();
                 }
+                // C05: the newest confirmed image (lifecycle oracle) and its validity before the start
+                let fb_before = self.life_expect_fb();
+                let fb_slot: Option<usize> = fb_before.strip_prefix("Some(").map(|x| x.trim_end_matches(')').parse().unwrap());
+                let fb_bytes: Option<Vec<u8>> = fb_slot.map(|i| self.f.mem[i * self.slot..(i + 1) * self.slot].to_vec());
                 let r = {
                     let (f, s) = (&mut self.f, &mut *self.s);
                     guarded(|| mgr!(&mut self.m, m => block_on(m.start_update(f, s, sz, n))))
                 };
+                if let (Some(i), Some(b)) = (fb_slot, &fb_bytes) {
+                    if self.nslots >= 4 && &self.f.mem[i * self.slot..(i + 1) * self.slot] != &b[..] {
+                        o.fail_key("C05", "start-modified-fallback", format!("start_update({}, {}) erased or modified slot {} which holds the most recently confirmed firmware", sz, n, i));
+                    }
+                }
+                self.life_apply_erases();
+                self.started_ok = matches!(&r, Ok(Ok(_)));
                 if self.f.dead {
                     self.crashed = true;
                 }
@@ -354,6 +445,9 @@ impl Exec {
                         let fw = if self.f.word(a * self.slot) == 0 { a } else { b };
                         let par = if fw == a { b } else { a };
                         self.sess = Some((fw, par));
+                        self.last_fw = Some(fw);
+                        self.life[fw] = Life::InProgress;
+                        self.life[par] = Life::None;
                         extra = format!(" ; fw={} ; par={} ; maxl={}", fw, par, self.f.word(par * self.slot + 12));
                     } else {
                         o.fail("C08", format!("start_update touched {} slots: {:?}", touched.len(), touched));
@@ -487,6 +581,10 @@ impl Exec {
                         }
                     }
                 }
+                if let Ok(Ok(slot)) = &r {
+                    self.life[*slot] = Life::CopyPending;
+                    self.started_ok = false;
+                }
                 self.twin("check", &res, o);
                 if self.in_variant && !matches!(r, Ok(Ok(_))) && self.variant_prop != "C07" {
                     // resumed / retried sessions must end in a successful check
@@ -539,7 +637,7 @@ impl Exec {
                             Some(_) => {
                                 if inprog.len() != 2 {
                                     o.fail("C13", format!("try_recover returned a session but the in-progress slots are {:?}", inprog));
-                                } else if self.owner[inprog[0]] != self.owner[inprog[1]] || self.owner[inprog[0]] == 0 {
+                                } else if !self.crafted && (self.owner[inprog[0]] != self.owner[inprog[1]] || self.owner[inprog[0]] == 0) {
                                     o.fail_key("C13", "chimera", format!("recovered session pairs slots written by different start attempts: {:?} owners {:?}", inprog, self.owner));
                                 }
                             }
@@ -568,7 +666,47 @@ impl Exec {
                 } else {
                     self.sess = None;
                 }
-                self.twin("recover", &format!("{}{}", res, cnt), o);
+                self.life_apply_erases();
+                if res == "None" && !self.f.dead {
+                    for l in self.life.iter_mut() {
+                        if *l == Life::InProgress {
+                            *l = Life::Aborted;
+                        }
+                    }
+                }
+                if self.in_variant && self.variant_prop == "C07" {
+                    let want = self.pre_reboot.clone();
+                    if res != "Some" {
+                        let k = self.variant_key.clone();
+                        o.fail_key("C07", &k, format!("a started, uncompleted session was not recovered after a clean reboot: {}", res));
+                    } else if let Some(w) = want {
+                        if format!(" ; {}", w) != cnt {
+                            let k = self.variant_key.clone();
+                            o.fail_key("C07", &k, format!("counters differ across a clean reboot: before [{}] after [{}]", w, cnt));
+                        }
+                    }
+                }
+                if self.in_variant && self.variant_prop == "C06" && self.started_ok && res != "Some" {
+                    // acceptable only when the interrupted final mark had already completed the firmware slot
+                    let mut done = false;
+                    if let Some(fw) = self.last_fw {
+                        let w = self.hdr_words(fw);
+                        let b = fw * self.slot + 0x4400;
+                        if parses(&w) && w[0] == 0 && w[4] == 0x4444_4444 && !self.image.is_empty() && self.f.mem[b..b + self.image.len()] == self.image[..] {
+                            done = true;
+                        }
+                    }
+                    if done {
+                        self.completed_by_mark = true;
+                        o.stat("crash-after-firmware-mark-update-already-complete");
+                    } else {
+                        let k = self.variant_key.clone();
+                        o.fail_key("C06", &k, format!("the session was fully started but recovery returned {}", res));
+                    }
+                }
+                if res != "Some" {
+                    self.started_ok = false;
+                }
                 self.f.crash_at = None;
                 self.f.fail_mut_at = None;
                 o.stat(&format!("recover-{}", res));
@@ -603,6 +741,14 @@ impl Exec {
                     }
                 }
                 self.sess = None;
+                self.started_ok = false;
+                if matches!(r, Ok(Ok(()))) {
+                    for l in self.life.iter_mut() {
+                        if *l == Life::InProgress {
+                            *l = Life::Aborted;
+                        }
+                    }
+                }
                 self.f.crash_at = None;
                 format!("res={} ; ops={}", res, ops)
             }
@@ -635,6 +781,18 @@ impl Exec {
                 };
                 let ops = ops_str(&self.f, self.slot);
                 self.check_ops("status mark", false, o);
+                if matches!(r, Ok(Ok(()))) && sl < self.nslots {
+                    match (t[2], self.life[sl]) {
+                        ("int", Life::CopyPending) => self.life[sl] = Life::AckPending,
+                        ("ok", Life::AckPending) => {
+                            self.confirm_clock += 1;
+                            self.life[sl] = Life::Confirmed(self.confirm_clock);
+                        }
+                        ("bad", Life::AckPending) => self.life[sl] = Life::Rejected,
+                        ("aborted", Life::InProgress) => self.life[sl] = Life::Aborted,
+                        _ => {}
+                    }
+                }
                 self.f.crash_at = None;
                 format!("res={} ; ops={}", res, ops)
             }
@@ -658,6 +816,9 @@ impl Exec {
                 if !self.f.log.is_empty() {
                     o.fail("C08", "bl_boot_status modified the flash".into());
                 }
+                if t.len() > 1 && t[1] == "life" && self.pending_count() <= 1 && res != self.life_expect_bl() {
+                    o.fail("C12", format!("bootloader status is {} but the lifecycle says {} ({:?})", res, self.life_expect_bl(), self.life));
+                }
                 // C04: the designated slot must validate (when it reads as a completed firmware)
                 if let Ok(Ok(BlBootStatus::IncompleteInternal { idx })) | Ok(Ok(BlBootStatus::FailedLoad { idx })) = &r {
                     let idx = *idx as usize;
@@ -665,7 +826,7 @@ impl Exec {
                         let (f, s) = (&mut self.f, &mut *self.s);
                         mgr!(&self.m, m => guarded(|| block_on(m.open(idx).is_valid_firmware(f, s))))
                     };
-                    if !matches!(v, Ok(Ok(()))) {
+                    if !matches!(v, Ok(Ok(()))) && !self.crafted {
                         o.fail_key("C04", "bl-designates-invalid", format!("bootloader status designates slot {} which fails validation", idx));
                     }
                 }
@@ -701,6 +862,10 @@ impl Exec {
                     o.fail_key("C17", "fb-panic", "fallback_firmware panicked".into());
                     o.fail_key("C04", "fb-panic", "fallback_firmware panicked".into());
                 }
+                if t.len() > 1 && t[1] == "life" && self.pending_count() <= 1 && res != self.life_expect_fb() {
+                    o.fail("C12", format!("fallback is {} but the most recently confirmed image is {} ({:?})", res, self.life_expect_fb(), self.life));
+                    o.fail_key("C05", "fallback-lost", format!("fallback query answers {} but the most recently confirmed image is {}", res, self.life_expect_fb()));
+                }
                 format!("res={}", res)
             }
             "valid" => {
@@ -733,6 +898,12 @@ impl Exec {
                         if !matches!(v, Ok(Ok(()))) {
                             bad.push(i);
                             o.fail_key("C04", "complete-but-invalid", format!("slot {} reads as completed firmware but fails validation", i));
+                        }
+                        if self.last_fw == Some(i) && !self.image.is_empty() && w[3] as usize == self.n && w[2] as usize == self.sz {
+                            let b = i * self.slot + 0x4400;
+                            if self.f.mem[b..b + self.image.len()] != self.image[..] {
+                                o.fail_key("C04", "complete-but-different", format!("slot {} reads as completed firmware of the interrupted session but differs from the transmitted image", i));
+                            }
                         }
                     }
                 }
